@@ -426,18 +426,15 @@ func (r *Reader) FindBlockForKey(key []byte) ([]BlockLocator, error) {
 	var blocks []BlockLocator
 	seenBlocks := make(map[uint64]bool)
 
-	// First try binary search for efficiency - find the first block
-	// where the first key is >= our target key
+	// The index holds the first key of each block: the only block that can
+	// contain the key is the last one whose first key is <= key
 	indexIter := r.indexBlock.Iterator()
-	indexIter.Seek(key)
+	var candidate *BlockLocator
+	for indexIter.SeekToFirst(); indexIter.Valid(); indexIter.Next() {
+		if bytes.Compare(indexIter.Key(), key) > 0 {
+			break
+		}
 
-	// If the seek fails, start from beginning to check all blocks
-	if !indexIter.Valid() {
-		indexIter.SeekToFirst()
-	}
-
-	// Process all potential blocks (starting from the one found by Seek)
-	for ; indexIter.Valid(); indexIter.Next() {
 		locator, err := ParseBlockLocator(indexIter.Key(), indexIter.Value())
 		if err != nil {
 			continue
@@ -449,7 +446,12 @@ func (r *Reader) FindBlockForKey(key []byte) ([]BlockLocator, error) {
 		}
 		seenBlocks[locator.Offset] = true
 
-		blocks = append(blocks, locator)
+		loc := locator
+		candidate = &loc
+	}
+
+	if candidate != nil {
+		blocks = append(blocks, *candidate)
 	}
 
 	return blocks, nil
